@@ -49,7 +49,7 @@ m("c03-lenlen-scan-short", "C03", B, "                while lenLen < len(self._b
 m("c03-no-loop-second-packet", "C03", B, "                self._buffer = self._buffer[length + lenLen + 1:]\n                length = None\n", "                self._buffer = self._buffer[length + lenLen + 1:]\n                length = None\n                break\n")
 
 # ---- C04 connect
-m("c04-connack-no-cancel", "C04 C13", B, "        request = self.connReq\n        request.alarm.cancel()\n", "        request = self.connReq\n")
+m("c04-connack-no-cancel", "C04 C13", B, "        self.connReq = None     # before the callbacks are fired: an errback may call connect() again\n        request.alarm.cancel()\n", "        self.connReq = None     # before the callbacks are fired: an errback may call connect() again\n")
 m("c04-refused-stays-connecting", "C04 C14", B, "        else:\n            self.state = self.IDLE\n            if response.resultCode < len(MQTT_CONNECT_CODES):", "        else:\n            if response.resultCode < len(MQTT_CONNECT_CODES):")
 m("c04-timeout-ignores-keepalive", "C04", B, "self.callLater(request.keepalive or 10, connectError)", "self.callLater(10, connectError)")
 m("c04-ondisconnection-twice", "C04", B, "            self.callLater(0.1, self.onDisconnection, reason)\n", "            self.callLater(0.1, self.onDisconnection, reason)\n            self.callLater(0.2, self.onDisconnection, reason)\n")
